@@ -116,7 +116,9 @@ def run(pid, tier, seed, facts_files, work, replay, t0, here, repo):
             return 1
         return 0
 
-    vdir = os.path.join(here, "evidence", "violations")
+    # development runs against another tree (ORX_REPO=<scratch worktree>) must not overwrite the evidence of /repo
+    evroot = os.path.join(here, "evidence") if os.path.realpath(repo) == "/repo" else os.path.join(here, ".work", "evidence_alt")
+    vdir = os.path.join(evroot, "violations")
     os.makedirs(vdir, exist_ok=True)
     for fn in os.listdir(vdir):
         if fn.startswith(pid + "-"):
@@ -177,8 +179,8 @@ def run(pid, tier, seed, facts_files, work, replay, t0, here, repo):
         "wall_s": round(time.time() - t0, 2),
         "violations": len(new_viols),
     }
-    os.makedirs(os.path.join(here, "evidence"), exist_ok=True)
-    json.dump(ev, open(os.path.join(here, "evidence", "%s.json" % pid), "w"), indent=1, default=str)
+    os.makedirs(evroot, exist_ok=True)
+    json.dump(ev, open(os.path.join(evroot, "%s.json" % pid), "w"), indent=1, default=str)
     print("%s tier=%s: %d obligations, %d discharged, %d undecided, %d known findings, %d violations (%.1fs)" % (
         pid, tier, len(all_obs), len(ok), len(und), len(known_hits), len(new_viols), time.time() - t0))
     return 1 if new_viols else 0
